@@ -40,6 +40,12 @@ def family(name, n):
         return "def mk():\n    g = 7\n    return " + "lambda: " * n + "g\nv = mk()\nfor _ in range(" + str(n) + "):\n    v = v()\nprint(v)\n"
     if name == "genexp-chain-in-class":
         return "g = [7]\nclass K:\n    f = " + "(" * n + "g" + " for _ in [0])" * n + "\nv = K.f\nfor _ in range(" + str(n) + "):\n    v = next(v)\nprint(v)\n"
+    if name == "huge-int-literal":
+        # 4 n hexadecimal digits: beyond about 3 570 the value has more than 4 300 decimal digits
+        return "x = 0x" + "f" * (4 * n) + "\nprint(x.bit_length())\n"
+    if name == "nested-def":
+        L = [" " * i + f"def f{i}():" for i in range(n)] + [" " * n + "return 1"] + [" " * i + f"return f{i}()" for i in range(n - 1, 0, -1)] + ["print(f0())"]
+        return "\n".join(L) + "\n"
     if name == "nested-if":
         return "".join("    " * i + "if True:\n" for i in range(n)) + "    " * n + "print('deep')\n"
     if name == "nested-for":
@@ -86,8 +92,8 @@ DEEP_CONTEXTS = {
 
 FAMILIES = ["statements", "statements-in-function", "statements-in-loop", "elif-chain", "dispatch-return", "dispatch-continue", "binop-chain", "boolop-chain", "attribute-chain",
             "call-chain", "nested-if", "nested-for", "list-display", "nested-parens-call", "statements-after-break", "statements-after-continue",
-            "statements-after-return", "lambda-chain-in-class", "lambda-chain-in-function", "genexp-chain-in-class"] + ["deep-expr-in:" + c for c in DEEP_CONTEXTS]
-DEEP = {"nested-if": 90, "nested-for": 18, "nested-parens-call": 150, "genexp-chain-in-class": 150}   # CPython's own limits for the source are near these
+            "statements-after-return", "lambda-chain-in-class", "lambda-chain-in-function", "genexp-chain-in-class", "huge-int-literal", "nested-def"] + ["deep-expr-in:" + c for c in DEEP_CONTEXTS]
+DEEP = {"nested-if": 90, "nested-for": 18, "nested-parens-call": 150, "genexp-chain-in-class": 150, "nested-def": 99}   # CPython's own limits for the source are near these
 
 
 def run(src, mode):
@@ -137,6 +143,12 @@ def known_shape(fam, n, cfg, verdict):
         return "KF-D51"     # the chain-call wrapper nests one call per consecutive statement of a block
     if cfg[0] == "ast.unparse" and verdict == "fail:convert RecursionError" and fam in ("elif-chain", "dispatch-return", "dispatch-continue", "binop-chain", "boolop-chain", "attribute-chain", "call-chain", "lambda-chain-in-class", "lambda-chain-in-function", "genexp-chain-in-class") + tuple("deep-expr-in:" + c for c in DEEP_CONTEXTS):
         return "KF-D53"     # the stdlib unparser is recursive: output nested deeper than the recursion limit
+    if fam == "huge-int-literal" and "ValueError" in verdict:
+        return "KF-D64"     # repr() of an int with more than 4 300 decimal digits is refused by the interpreter (both unparsers use it)
+    if fam == "nested-def" and cfg[0] == "ast.unparse" and verdict == "fail:convert RecursionError":
+        return "KF-D53"
+    if fam == "nested-def" and cfg[1] == "list" and n >= 97 and "MemoryError" in verdict:
+        return "KF-D66"     # 97 - 99 nested defs (the source's own limit is 100 levels): the list wrapper's brackets overflow the parser's stack
     if cfg[2] == "short_circuit" and fam in ("elif-chain", "dispatch-return", "dispatch-continue") and ("MemoryError(compile)" in verdict or "RecursionError" in verdict):
         return "KF-D54"     # the short-circuit style adds three operator levels per elif: the parser's stack overflows
     return None
